@@ -498,6 +498,28 @@ mut("C17", "r7-bourdin-flag-of-the-model", E + "Models/_phasefield.py", "       
 same("C17", "r7-bourdin-flag-local", E + "Models/_phasefield.py", "        C = self.__material.C\n        if self.__material.isHeterogeneous:\n", "        material = self.__material\n        C = material.C\n        het = material.isHeterogeneous\n        if het:\n")
 
 
+def refactored_edits(props):
+    """behaviour-preserving rewrites written by independent sub-agents (/verif/refactored/<Cxx-Rk>): each must leave the check of
+    the property it was written for silent (exit 0).  refactored/KNOWN_LIMITS.json lists the rewrites on which a check still
+    ends in an analysis error, with the reason (DESIGN 7.13)."""
+    out = []
+    rd = os.path.join(HERE, "refactored")
+    if not os.path.isdir(rd):
+        return out
+    try:
+        limits = json.load(open(os.path.join(rd, "KNOWN_LIMITS.json")))
+    except Exception:
+        limits = {}
+    for d in sorted(os.listdir(rd)):
+        pp = os.path.join(rd, d, "patch.diff")
+        if not os.path.exists(pp) or d in limits:
+            continue
+        pr = d.split("-")[0]
+        if props is None or pr in props:
+            out.append(dict(prop=pr, id=f"refactored:{d}", patch=pp, file="?", old="", new="", expect=None))
+    return out
+
+
 def apply_edit(root, e):
     if e.get("patch"):
         p = subprocess.run(["patch", "-p1", "-s", "-f", "-d", root, "-i", e["patch"]], capture_output=True, text=True)
@@ -551,6 +573,7 @@ def run(prop, repo_root="/repo", verbose=True):
     props = None if prop in (None, "all") else {prop}
     jobs = [(e, True) for e in M if props is None or e["prop"] in props] + [(e, False) for e in S if props is None or e["prop"] in props]
     jobs += [(e, True) for e in seeded_edits(props)]
+    jobs += [(e, False) for e in refactored_edits(props)]
     for prop_r, qn in RENAME:
         if props is not None and prop_r not in props:
             continue
